@@ -222,6 +222,8 @@ class C05(Check):
         self._exc = {}
         self._ref_n = 0
         self._ref_bad = []
+        self._raw_n = 0
+        self._raw_bad = []
         self._stream = {}
         self._seen_dom = set()
         self.stats = {"input_distribution": {}}
@@ -278,7 +280,7 @@ class C05(Check):
 
     # ---- M
     def model_view(self, case, ans):
-        fs, tree, _ = ans
+        fs, tree = ans[0], ans[1]
         if case in self._exc:
             tree = self._exc[case]
         return [fs, tree]
@@ -293,6 +295,12 @@ class C05(Check):
             return ["ill-formed"]
         logical, nodes, wf, c20, c22 = sp
         self._flags[case] = (bool(wf), bool(c20), bool(c22))
+        # S computed from the raw characters (Spec/C05f.v) must agree with S on physical lines
+        # (a theorem for newline-terminated texts; checked here for every text)
+        rl, rwf, r20, r22, rnl = ans[3]
+        self._raw_n += 1
+        if [rl, rwf, r20, r22] != [logical, wf, c20, c22] and (rnl or case == ""):
+            self._raw_bad.append(case)
         # cross-check the Coq specification against the independent look-ahead reference (c05_ref)
         ref = c05_ref.scan(case)
         self._ref_n += 1
@@ -383,6 +391,10 @@ class C05(Check):
         if self._ref_bad:
             problems.append(f"Coq specification and independent reference disagree on {len(self._ref_bad)} of "
                             f"{self._ref_n} cases, first: {self._ref_bad[0]!r}")
+        if self._raw_bad:
+            problems.append(f"S on raw text and S on physical lines disagree on {len(self._raw_bad)} of {self._raw_n} "
+                            f"cases, first: {self._raw_bad[0]!r}")
+        self.stats["spec_raw_vs_lines"] = {"cases": self._raw_n, "disagreements": len(self._raw_bad)}
         g = self.gcc_oracle(300 if self.tier == "quick" else 4000)
         self.stats["spec_oracle_gcc"] = {k: (v if k != "disagreements" else len(v)) for k, v in g.items()}
         self.stats["spec_vs_reference"] = {"cases": self._ref_n, "disagreements": len(self._ref_bad)}
